@@ -343,6 +343,15 @@ func c31ComparesAddrs(fn *ssa.Function, x *c31) bool {
 	return found
 }
 
+// c31Group: the places inside one function where the constant swapPrimary becomes the decision,
+// with the predicate naming the reported tunnel in that function.
+type c31Group struct {
+	fn      *ssa.Function
+	sinks   []Sink
+	tun     func(ssa.Value) bool
+	unbound bool // a helper that is not handed the reported tunnel
+}
+
 func runC31(c *Ctx) {
 	c.Rule("C31.tiebreak", "K8: shouldSwapPrimary can return true under at most one strict side of the order between peer.vpnAddrs[k] and own myVpnAddrs[k] (same k): the mirrored view of the other end then refuses", 2)
 	c.Rule("C31.decision", "K1: the swapPrimary decision is produced only after shouldSwapPrimary(returned tunnel) was true, with the primary read for that tunnel's address; doTrafficCheck runs swapPrimary only for that decision with exactly (tunnel, primary)", 5)
@@ -403,11 +412,16 @@ func runC31(c *Ctx) {
 			if len(ret.Results) != 3 {
 				continue
 			}
-			// places where the constant swapPrimary becomes the decision of this return
-			var sinks []Sink
+			// places where the constant swapPrimary becomes the decision of this return: in this
+			// function, or in a same-module helper whose result is the decision (a part of the
+			// decision tree extracted into a method); one group of sinks per function analysed
+			tun0 := retResult(ret, 1)
+			top := &c31Group{fn: fn, tun: g8Is(tun0)}
+			groups := []*c31Group{top}
 			seen := map[ssa.Value]bool{}
-			var walk func(v ssa.Value)
-			walk = func(v ssa.Value) {
+			unfollowed := ""
+			var walk func(g *c31Group, v ssa.Value, depth int)
+			walk = func(g *c31Group, v ssa.Value, depth int) {
 				if seen[v] {
 					return
 				}
@@ -415,26 +429,87 @@ func runC31(c *Ctx) {
 				if phi, ok := v.(*ssa.Phi); ok {
 					for i, e := range phi.Edges {
 						if k, isK := constInt(e); isK && k == swapK {
-							sinks = append(sinks, Sink{Instr: phi, Desc: "decision = swapPrimary", ViaPred: phi.Block().Preds[i]})
+							g.sinks = append(g.sinks, Sink{Instr: phi, Desc: "decision = swapPrimary", ViaPred: phi.Block().Preds[i]})
 						} else {
-							walk(e)
+							walk(g, e, depth)
 						}
 					}
+					return
+				}
+				if _, isK := constInt(v); isK {
+					return
+				}
+				poss := fix5PossibleInts(v)
+				if !poss[swapK] && !poss[-1] {
+					return // cannot be the swap decision
+				}
+				call, idx := callOf(g8Resolve(v))
+				h := fix5Callee(call)
+				if h == nil || depth >= 2 || h == g.fn {
+					if poss[swapK] || call != nil {
+						unfollowed = "the decision is computed by " + exprString(v) + ", which this rule does not follow"
+					}
+					return
+				}
+				if idx < 0 {
+					idx = 0
+				}
+				tset := map[int]bool{}
+				for j, a := range call.Call.Args {
+					if g.tun(a) {
+						tset[j] = true
+					}
+				}
+				sub := &c31Group{fn: h, tun: g8IsParamIn(h, tset), unbound: len(tset) == 0}
+				groups = append(groups, sub)
+				c.Funcs[h.String()] = true
+				for _, hr := range g8Returns(h) {
+					if idx >= len(hr.Results) {
+						continue
+					}
+					rv := retResult(hr, idx)
+					if k, isK := constInt(rv); isK {
+						if k == swapK {
+							sub.sinks = append(sub.sinks, Sink{Instr: hr, Desc: "return swapPrimary"})
+						}
+						continue
+					}
+					walk(sub, rv, depth+1)
 				}
 			}
 			d := retResult(ret, 0)
 			if k, isK := constInt(d); isK && k == swapK {
-				sinks = append(sinks, Sink{Instr: ret, Desc: "return swapPrimary"})
+				top.sinks = append(top.sinks, Sink{Instr: ret, Desc: "return swapPrimary"})
 			}
-			walk(d)
-			if len(sinks) == 0 {
+			walk(top, d, 0)
+			nSinks := 0
+			for _, g := range groups {
+				nSinks += len(g.sinks)
+			}
+			if nSinks == 0 {
+				if unfollowed != "" {
+					n++
+					c.Unknown("C31.decision", fmt.Sprintf("makeTrafficDecision:swap-decision#%d", n-1), unfollowed)
+				}
 				continue
 			}
 			tun, prim := retResult(ret, 1), retResult(ret, 2)
 			cons := fmt.Sprintf("makeTrafficDecision:swap-decision#%d", n)
 			n++
-			g := gBool("shouldSwapPrimary(reported tunnel) is true", true, -1, callTo(shouldRef).withArg(1, g8Is(tun)))
-			c.g8Require("C31.decision", fn, sinks, fmt.Sprintf("swap-decision#%d", n-1), g)
+			if unfollowed != "" {
+				c.Unknown("C31.decision", cons+":other-producers", unfollowed)
+			}
+			for _, grp := range groups {
+				if len(grp.sinks) == 0 {
+					continue
+				}
+				if grp.unbound {
+					c.Unknown("C31.decision", fmt.Sprintf("%s:swap-decision#%d", fnName(grp.fn), n-1), "the helper that yields the swap decision is not handed the reported tunnel as an argument: cannot tie its shouldSwapPrimary test to that tunnel")
+					continue
+				}
+				g := gBool("shouldSwapPrimary(reported tunnel) is true", true, -1, callTo(shouldRef).withArg(1, grp.tun))
+				c.g8Require("C31.decision", grp.fn, grp.sinks, fmt.Sprintf("swap-decision#%d", n-1), g)
+			}
 			okPrim := g8Entry(fHosts, func(k ssa.Value) bool { _, ok := c31ElemOf(x.fVpn, g8Is(tun), k); return ok })(prim)
 			c.Check(okPrim, "C31.decision", cons+":primary-of-that-tunnel", c.instrPos(ret), "primary = Hosts[tunnel.vpnAddrs[k]]", "the primary reported with the swap decision ("+exprString(prim)+") is not the hostmap's primary for the reported tunnel's address: the executor's re-check would compare against the wrong tunnel")
 		}
